@@ -19,9 +19,12 @@ def sample(inp_id, k, col=0):
 
 
 def wrap_level(spec, name='top', key='g'):
-    inner = {k: v for k, v in spec.items() if k not in ('ops', 'nts', 'build')}
-    return {'name': name, 'build': spec.get('build', 'python'), 'ops': spec['ops'], 'nts': spec['nts'],
-            'circuits': {key: inner}, 'edges': []}
+    inner = {k: v for k, v in spec.items() if k not in ('ops', 'nts', 'build', 'ets')}
+    out = {'name': name, 'build': spec.get('build', 'python'), 'ops': spec['ops'], 'nts': spec['nts'],
+           'circuits': {key: inner}, 'edges': []}
+    if spec.get('ets'):
+        out['ets'] = spec['ets']
+    return out
 
 
 class C08(Check):
